@@ -243,11 +243,16 @@ fn bae<W: Copy + Default, F, T: std::fmt::LowerHex>(off: usize, bytes: &[u8], ra
         None => "none".into(),
     }
 }
-fn gen_bae(r: &mut Rng, nb: usize) -> (usize, Vec<u8>) {
-    // aligned and every misalignment; whole numbers of elements and ragged lengths; words may be non-canonical
-    let off = match r.below(8) { 0..=3 => 0, 4 => nb / 2, 5 => [1, nb - 1, nb, nb + nb / 2][r.below(4) as usize], _ => r.below(2 * nb as u64) as usize };
-    let k = r.below(4) as usize;
-    let len = if r.chance(3, 4) { k * nb } else { k * nb + match r.below(4) { 0 => nb / 2, 1 => 1, 2 => nb - 1, _ => 1 + r.below(nb as u64 - 1) as usize } };
+fn gen_bae(r: &mut Rng, nb: usize, j: usize) -> (usize, Vec<u8>) {
+    // first the full grid of boundary offsets x lengths (aligned, half word, 1, nb-1, one word further; whole numbers of
+    // elements, half-word and off-by-one ragged lengths), then random ones; words may be non-canonical
+    let offs = [0, nb / 2, 1, nb - 1, nb];
+    let lens = [0, nb, 2 * nb, nb / 2, nb + nb / 2, 1, nb - 1, nb + 1, 3 * nb];
+    let (off, len) = if j < offs.len() * lens.len() { (offs[j % offs.len()], lens[j / offs.len()]) } else {
+        let off = match r.below(8) { 0..=3 => 0, 4 => nb / 2, 5 => [1, nb - 1, nb, nb + nb / 2][r.below(4) as usize], _ => r.below(2 * nb as u64) as usize };
+        let k = r.below(4) as usize;
+        (off, if r.chance(3, 4) { k * nb } else { k * nb + match r.below(4) { 0 => nb / 2, 1 => 1, 2 => nb - 1, _ => 1 + r.below(nb as u64 - 1) as usize } })
+    };
     let mut v: Vec<u8> = (0..len).map(|_| r.next_u64() as u8).collect();
     if r.chance(1, 4) { v.iter_mut().for_each(|b| *b = 0xff) }
     (off, v)
@@ -299,7 +304,7 @@ fn corr_conv(r: &mut Rng, n: usize, out: &mut Vec<String>) {
             "as_bytes" => format!("f64.as_bytes {:x} => {}", a, hex_bytes(f64w(a).as_bytes())),
             "eab" => { let es: Vec<u64> = (0..r.below(4)).map(|_| w(r)).collect(); let fs: Vec<f64::BaseElement> = es.iter().map(|x| f64w(*x)).collect();
                 format!("f64.eab {} => {}", words(&es), hex_bytes(f64::BaseElement::elements_as_bytes(&fs))) }
-            "bae" => { let (off, bs) = gen_bae(r, 8); format!("f64.bae {:x} {} => {}", off, hex_bytes(&bs),
+            "bae" => { let (off, bs) = gen_bae(r, 8, i / ops64.len()); format!("f64.bae {:x} {} => {}", off, hex_bytes(&bs),
                 bae::<u64, f64::BaseElement, u64>(off, &bs, |e| e.inner(), |s| unsafe { f64::BaseElement::bytes_as_elements(s) }.ok().map(|x| x.to_vec()))) }
             _ => unreachable!(),
         };
@@ -325,7 +330,7 @@ fn corr_conv(r: &mut Rng, n: usize, out: &mut Vec<String>) {
             "as_bytes" => format!("f62.as_bytes {:x} => {}", a, hex_bytes(f62w(a).as_bytes())),
             "eab" => { let es: Vec<u64> = (0..r.below(4)).map(|_| w(r)).collect(); let fs: Vec<f62::BaseElement> = es.iter().map(|x| f62w(*x)).collect();
                 format!("f62.eab {} => {}", words(&es), hex_bytes(f62::BaseElement::elements_as_bytes(&fs))) }
-            "bae" => { let (off, bs) = gen_bae(r, 8); format!("f62.bae {:x} {} => {}", off, hex_bytes(&bs),
+            "bae" => { let (off, bs) = gen_bae(r, 8, i / ops62.len()); format!("f62.bae {:x} {} => {}", off, hex_bytes(&bs),
                 bae::<u64, f62::BaseElement, u64>(off, &bs, |e| f62raw(*e), |s| unsafe { f62::BaseElement::bytes_as_elements(s) }.ok().map(|x| x.to_vec()))) }
             _ => unreachable!(),
         };
@@ -349,7 +354,7 @@ fn corr_conv(r: &mut Rng, n: usize, out: &mut Vec<String>) {
             "as_bytes" => format!("f128.as_bytes {:x} => {}", a, hex_bytes(f128w(a).as_bytes())),
             "eab" => { let es: Vec<u128> = (0..r.below(4)).map(|_| w(r)).collect(); let fs: Vec<f128::BaseElement> = es.iter().map(|x| f128w(*x)).collect();
                 format!("f128.eab {} => {}", words(&es), hex_bytes(f128::BaseElement::elements_as_bytes(&fs))) }
-            "bae" => { let (off, bs) = gen_bae(r, 16); format!("f128.bae {:x} {} => {}", off, hex_bytes(&bs),
+            "bae" => { let (off, bs) = gen_bae(r, 16, i / ops128.len()); format!("f128.bae {:x} {} => {}", off, hex_bytes(&bs),
                 bae::<u128, f128::BaseElement, u128>(off, &bs, |e| f128raw(*e), |s| unsafe { f128::BaseElement::bytes_as_elements(s) }.ok().map(|x| x.to_vec()))) }
             _ => unreachable!(),
         };
